@@ -38,37 +38,38 @@ Definition flip (o : op) : op := match o with GE => LE | GT => LT | LE => GE | L
 (* ---- the property's reading of a version string, by table ---- *)
 Definition modifiers : list (str * Z) :=
   [(m_alpha, -3); (m_beta, -2); (m_pre, -1); (m_rc, -1); (m_pl, 0)].
-Inductive item := IComp (zs : list Z) | IRev (z : Z) | IIgnore.
-(* [w]: the number a (lower-cased) letter contributes after its 0 *)
-Definition spec1 (w : N -> Z) (s : str) : option (item * nat) :=
+Inductive item := IComp (z : Z) | ILetter (c : N) | IRev (z : Z) | IIgnore.
+Definition spec1 (s : str) : option (item * nat) :=
   match s with
   | [] => None
   | c :: _ =>
       if is_digit c then
-        let ds := fst (span_digits s) in Some (IComp [value ds], length ds)
-      else if ((c =? 46) || (c =? 95))%N then Some (IComp [0], 1%nat)
+        let ds := fst (span_digits s) in Some (IComp (value ds), length ds)
+      else if ((c =? 46) || (c =? 95))%N then Some (IComp 0, 1%nat)
       else if prefix_ci m_nb s then
         let ds := fst (span_digits (skipn 2 s)) in Some (IRev (value ds), (2 + length ds)%nat)
       else match find (fun m => prefix_ci (fst m) s) modifiers with
-           | Some (m, v) => Some (IComp [v], length m)
-           | None => if is_alpha c then Some (IComp [0; w (lower c)], 1%nat)
+           | Some (m, v) => Some (IComp v, length m)
+           | None => if is_alpha c then Some (ILetter (lower c), 1%nat)
                      else Some (IIgnore, 1%nat)
            end
   end.
-Fixpoint spec_items (w : N -> Z) (fuel : nat) (s : str) : list item :=
+Fixpoint spec_items (fuel : nat) (s : str) : list item :=
   match fuel with
   | O => []
-  | S f => match spec1 w s with
+  | S f => match spec1 s with
            | None => []
-           | Some (it, n) => it :: spec_items w f (skipn n s)
+           | Some (it, n) => it :: spec_items f (skipn n s)
            end
   end.
-Definition item_comps (it : item) : list Z := match it with IComp zs => zs | _ => [] end.
+(* [w]: the number a (lower-cased) letter contributes after its 0 *)
+Definition item_comps (w : N -> Z) (it : item) : list Z :=
+  match it with IComp z => [z] | ILetter c => [0; w c] | _ => [] end.
 Definition items_rev (its : list item) : Z :=
   fold_left (fun r it => match it with IRev n => n | _ => r end) its 0.
 Definition mkv_table (w : N -> Z) (s : str) : ver :=
-  let its := spec_items w (S (length s)) s in
-  mkver (flat_map item_comps its) (items_rev its).
+  let its := spec_items (S (length s)) s in
+  mkver (flat_map (item_comps w) its) (items_rev its).
 (* what the code stores for a letter (pinned by unit test dewey_version_modifiers) *)
 Definition code_weight (c : N) : Z := Z.of_N c.
 (* the property's own reading: alphabet rank *)
@@ -77,6 +78,20 @@ Definition mkv_spec := mkv_table rank_weight.
 
 Definition verdict_m (o : op) (a b : str) : bool := dewey_cmp (mkv a) o (mkv b).
 Definition verdict_spec (o : op) (a b : str) : bool := testc (vcmp (mkv_spec a) (mkv_spec b)) o.
+
+(* known finding KF-C01-rank: the class of pairs on which the two letter
+   weights may order differently - some position holds a letter's weight on one
+   side and a non-letter component >= 1 on the other *)
+Definition item_tags (it : item) : list (bool * Z) :=
+  match it with IComp z => [(false, z)] | ILetter c => [(false, 0); (true, rank_weight c)] | _ => [] end.
+Definition tags (s : str) : list (bool * Z) := flat_map item_tags (spec_items (S (length s)) s).
+Fixpoint conflict (x y : list (bool * Z)) : bool :=
+  match x, y with
+  | (t1, v1) :: x', (t2, v2) :: y' =>
+      (t1 && negb t2 && (1 <=? v2)) || (t2 && negb t1 && (1 <=? v1)) || conflict x' y'
+  | _, _ => false
+  end.
+Definition letter_conflict (a b : str) : bool := conflict (tags a) (tags b).
 
 (* every maximal digit run has at most n digits *)
 Definition digit_runs_le (n : nat) (s : str) : Prop :=
